@@ -74,3 +74,13 @@ func ProbeC10NL() {
 	}
 	vstub.Reach("probe")
 }
+
+// DebugCase returns the text and expected File of case i under the loaded script.
+func DebugCase(i int) ([]byte, bebop.File) {
+	symBudget = 1
+	defs, docs := Case(i)
+	st := styleFor(docs, 1)
+	return Print(defs, st), Want(defs, st)
+}
+
+func DebugReader(b []byte) *vstub.FragReader { return reader(b) }
